@@ -151,6 +151,16 @@ def main():
     if job["mode"] == "replay":
         doc = json.load(open(job["replay"]))
         try:
+            # a violation may depend on state left in the process by earlier runs of the same worker
+            # (module-level caches): the replay file then names those runs and they are re-executed first
+            h = doc.get("history")
+            if h:
+                for hr in h["runs"]:
+                    try:
+                        hp = mod.generate(core.run_rng(h["seed"], job["prop"], hr), h["tier"], hr)
+                        execute_guarded(mod, hp)
+                    except (HarnessError, Unsupported):
+                        pass
             ctx, v = execute_guarded(mod, doc["program"])
             emit(
                 {
@@ -212,6 +222,7 @@ def main():
                 )
                 rec["violation"] = v3.to_json()
                 rec["replay"] = path
+                rec["history"] = {"seed": seed, "tier": job["tier"], "runs": job["runs"][: job["runs"].index(r)]}
             rec["wall"] = round(time.time() - t0, 3)
             emit(rec)
         except Unsupported as e:
